@@ -409,7 +409,7 @@ package css
 //@   loop * candidate[T] cpM(p) <= old(cpM(p))
 
 //@ func Parser.parseAtRuleUnknown
-//@   ensures[F,C08] @level: result == TokenGrammar && smallInt(old(p.level)) ==> p.level == old(p.level) + cssLevelStep(old(p.tt))
+//@   ensures[F,C08] @own-level: result == TokenGrammar && smallInt(old(p.level)) ==> p.level == old(p.level) + cssLevelStep(old(p.tt))
 //@   preserves[S] cpInv(p) && p.l.r.pos >= old(p.l.r.pos)
 //@   requires[S] p.state[len(p.state)-1] == self() || (isBlockState(p.state[len(p.state)-1]) && !isBlockState(self()) && p.tt != ErrorToken && p.tt != SemicolonToken && p.tt != CommentToken && p.tt != RightBraceToken)
 //@   ensures[F,C08] @begin-atrule: result == BeginAtRuleGrammar ==> len(p.state) == old(len(p.state)) + 1 && isAtRuleBlock(p.state[len(p.state)-1])
